@@ -2,6 +2,7 @@ package q
 
 import (
 	"fmt"
+	"os"
 	"sort"
 	"strings"
 
@@ -141,6 +142,13 @@ func (c *Ctx) NewK9(pkgs []string, kinds []MirrorKind, commit []string, infallib
 		}
 		if !changed {
 			break
+		}
+	}
+	if os.Getenv("XVC_K9_DEBUG") != "" {
+		for _, fn := range k.fns {
+			if len(k.sumFail[fn]) > 0 || len(k.sumSucc[fn]) > 0 || !k.canFail[fn] {
+				fmt.Printf("K9 summary %s canFail=%v fail=%v succ=%v\n", load.QualName(fn), k.canFail[fn], k.sumFail[fn], k.sumSucc[fn])
+			}
 		}
 	}
 	return k
@@ -422,6 +430,15 @@ func (k *K9) analyse(fn *ssa.Function, report *[]k9Exit) (fail, succ kset, sites
 			fail.addAll(st)
 		} else {
 			succ.addAll(st)
+			// an exit whose verdict is not known to be good (an error collected from goroutines, handed back from
+			// an interface call, merged through a variable) may fail: the function is fallible for its callers even
+			// though this exit is judged as a succeeding one for the dirt it carries
+			if exitMayBeBad(ret, vs) {
+				k.sawFail = true
+				// ... and what is dirty (or survives of the caller's dirt) here is what the caller sees on the
+				// bad edge of its test as well
+				fail.addAll(st)
+			}
 		}
 		if report != nil {
 			*report = append(*report, k9Exit{ret, isFail, st})
@@ -701,6 +718,11 @@ func (k *K9) Operation(fnName string, exempt map[string]string) {
 			byKind[kd] = append(byKind[kd], c.At(e.ret))
 		}
 	}
+	if os.Getenv("XVC_K9_DEBUG") != "" {
+		for _, e := range exits {
+			fmt.Printf("K9 exit %s %s fail=%v dirty=%v\n", fnName, c.At(e.ret), e.fail, e.dirty)
+		}
+	}
 	c.Sites += len(exits)
 	if nFail == 0 {
 		c.Fail("floor", fnName, "K9: the operation has failure exits", "-", "none recognised")
@@ -720,4 +742,43 @@ func (k *K9) Operation(fnName string, exempt map[string]string) {
 			c.Fail("K9", fnName, what, sites[kd.Name], "changed at "+sites[kd.Name]+" and still changed at the failing exit(s) "+strings.Join(exitsDirty, ", ")+": a failed operation leaves a trace in memory that a reopened instance does not have")
 		}
 	}
+}
+
+// exitMayBeBad: the exit's error (or boolean verdict) is not a constant good value.
+func exitMayBeBad(ret *ssa.Return, vs verdictSig) bool {
+	var mayBad func(v ssa.Value, kind byte, depth int) bool
+	mayBad = func(v ssa.Value, kind byte, depth int) bool {
+		if depth > 6 {
+			return true
+		}
+		switch kind {
+		case 'e':
+			if IsNilConst(v) {
+				return false
+			}
+		case 'b':
+			if b, ok := ConstBool(Strip(v)); ok {
+				return !b
+			}
+		}
+		if rv := Resolve(v); rv != v {
+			return mayBad(rv, kind, depth+1)
+		}
+		if phi, ok := v.(*ssa.Phi); ok {
+			for _, e := range phi.Edges {
+				if e != ssa.Value(phi) && mayBad(e, kind, depth+1) {
+					return true
+				}
+			}
+			return false
+		}
+		return true
+	}
+	if vs.errIdx >= 0 && vs.errIdx < len(ret.Results) && mayBad(ret.Results[vs.errIdx], 'e', 0) {
+		return true
+	}
+	if vs.errIdx < 0 && vs.boolIdx >= 0 && vs.boolIdx < len(ret.Results) && mayBad(ret.Results[vs.boolIdx], 'b', 0) {
+		return true
+	}
+	return false
 }
